@@ -9,3 +9,5 @@ import XzVerif.Props.C11
 #print axioms Props.C11.C11_classic_reader_model_terminates
 #print axioms Props.C11.C11_lzma2_reader_model_terminates
 #print axioms Props.C11.C11_xz_reader_model_terminates
+#print axioms Props.C11.C11_source_readOp_no_panic
+#print axioms Props.C11.C11_source_byteAt_no_panic
